@@ -393,47 +393,57 @@ fn run_episode(
     EpisodeOutcome { json: js, violation }
 }
 
-/// Instruction counts swept after every hook visit (until the next hook is reached): quick / thorough.
-const PREEMPT_K_MAX: u32 = 64;
-const PREEMPT_K_MAX_THOROUGH: u32 = 160;
-/// Worker processes the preemption sweep is spread over: quick / thorough.
-/// Histories that repeat a build: single steps per swept history that are spread over the visits of the repeated
-/// build (few visits, e.g. when a remembered result is returned early, mean many instruction counts per visit).
-const PREEMPT_STEP_BUDGET: u32 = 3000;
-const PREEMPT_STEP_BUDGET_THOROUGH: u32 = 8000;
-const PREEMPT_K_CAP: u32 = 4000;
-const PREEMPT_EPISODES: u64 = 16;
-const PREEMPT_EPISODES_THOROUGH: u64 = 96;
+/// Every instruction address of a stretch is visited at its first this-many occurrences: quick / thorough.
+const PREEMPT_OCC_MAX: u32 = 1;
+const PREEMPT_OCC_MAX_THOROUGH: u32 = 3;
+/// Upper bound on the positions swept per visit (beyond it: first occurrences only, thinned out evenly).
+const PREEMPT_POSITIONS_PER_VISIT: usize = 900;
+const PREEMPT_POSITIONS_PER_VISIT_THOROUGH: usize = 5000;
+const PREEMPT_SPLIT: u64 = 2;
+const PREEMPT_EPISODES: u64 = 32;
+const PREEMPT_EPISODES_THOROUGH: u64 = 192;
 
-/// Adaptive generator of the runs of one preemption episode (see episode.rs): for each of its pairs a probe run
-/// that counts the victim's hook visits, then for every visit the instruction counts 1, 2, 3, ... until the run
-/// reports that the next hook (or the end of the call) was reached first.
+/// Adaptive generator of the runs of one preemption episode (see episode.rs and step.rs): for each of its pairs a
+/// probe run that counts the victim's visits (hook calls and call entries); then for every visit one *trace run* that
+/// single-steps the stretch up to the next hook once and records the instruction addresses, and for every position
+/// of that stretch (every address at its first `occ_max` occurrences, so that loops are entered but not unrolled
+/// without end) one run that parks the victim exactly there by a hardware breakpoint, lets the intruder run its whole
+/// history, and resumes the victim.
 struct PreemptSweep {
+    residue: u64,
     pairs: Vec<PreemptPair>,
     pos: usize,
     seeds: (u64, u64),
     rng: Rng,
-    state: u8, // 0 = emit probe, 1 = probe done, 2 = sweeping
+    state: u8, // 0 = emit probe(s), 5 = head probe done, 1 = probe done, 2 = emit trace run, 3 = trace done, 4 = positions
     visits: u64,
     intruder_visits: u64,
     visit: u64,
-    k: u32,
-    k_max: u32,
-    k_min: u32,
-    step_budget: u32,
+    positions: Vec<u32>,
+    pos_idx: usize,
+    occ_max: u32,
+    per_visit_max: usize,
     skip_visits: u64,
     second_pass: bool,
     parked: u64,
     pass: u8,
     pairs_done: u64,
     visits_swept: u64,
+    positions_total: u64,
+    stretch_instructions: u64,
+    stretches_truncated: u64,
 }
 
 impl PreemptSweep {
-    fn new(verif_seed: u64, tier: &str, episode: u64, n_eps: u64, k_max: u32) -> PreemptSweep {
+    fn new(verif_seed: u64, tier: &str, episode: u64, n_eps: u64, occ_max: u32) -> PreemptSweep {
         let all = preempt_pairs(verif_seed, tier);
-        let pairs: Vec<PreemptPair> = all.into_iter().enumerate().filter(|(i, _)| *i as u64 % n_eps.max(1) == episode).map(|(_, p)| p).collect();
+        // the visits of one pair are dealt out to PREEMPT_SPLIT episodes (a pair is tens of seconds of work)
+        let groups = (n_eps.max(1) / PREEMPT_SPLIT).max(1);
+        let group = episode / PREEMPT_SPLIT;
+        let residue = episode % PREEMPT_SPLIT;
+        let pairs: Vec<PreemptPair> = all.into_iter().enumerate().filter(|(i, _)| *i as u64 % groups == group).map(|(_, p)| p).collect();
         PreemptSweep {
+            residue,
             pairs,
             pos: 0,
             seeds: (0, 0),
@@ -442,17 +452,24 @@ impl PreemptSweep {
             visits: 0,
             intruder_visits: 0,
             visit: 0,
-            k: 0,
-            k_max,
-            k_min: k_max,
-            step_budget: if tier == "thorough" { PREEMPT_STEP_BUDGET_THOROUGH } else { PREEMPT_STEP_BUDGET },
+            positions: vec![],
+            pos_idx: 0,
+            occ_max,
+            per_visit_max: if tier == "thorough" { PREEMPT_POSITIONS_PER_VISIT_THOROUGH } else { PREEMPT_POSITIONS_PER_VISIT },
             skip_visits: 0,
             second_pass: tier == "thorough",
             parked: 0,
             pass: 0,
             pairs_done: 0,
             visits_swept: 0,
+            positions_total: 0,
+            stretch_instructions: 0,
+            stretches_truncated: 0,
         }
+    }
+
+    fn victim_key(&self) -> u64 {
+        grex_sim::exec::client_fingerprint(&ClientSpec { hash_seed: self.seeds.0, ops: self.pairs[self.pos].victim.clone() })
     }
 
     fn next(&mut self, _r: usize) -> Option<RunSpec> {
@@ -464,6 +481,8 @@ impl PreemptSweep {
                 0 => {
                     self.seeds = (self.rng.next_u64() | 1, self.rng.next_u64() | 1);
                     self.skip_visits = 0;
+                    self.pass = 0;
+                    self.parked = 0;
                     let pair = &self.pairs[self.pos];
                     if pair.skip_ops > 0 {
                         // first count the visits of the part of the history that is not swept
@@ -473,6 +492,7 @@ impl PreemptSweep {
                             intruder: pair.intruder.clone(),
                             systematic: pair.systematic,
                             skip_ops: 0,
+                            mailboxes: pair.mailboxes,
                         };
                         return Some(preempt_run(&head, self.seeds, 0, 0, 0));
                     }
@@ -492,49 +512,81 @@ impl PreemptSweep {
                     self.visits = info.0.first().copied().unwrap_or(0);
                     self.intruder_visits = info.0.get(1).copied().unwrap_or(0);
                     self.visit = self.skip_visits + 1;
-                    self.k_max = if self.pairs[self.pos].skip_ops > 2 {
-                        (self.step_budget / (self.visits.saturating_sub(self.skip_visits).max(1) as u32)).clamp(self.k_min, PREEMPT_K_CAP)
-                    } else {
-                        self.k_min
-                    };
-                    self.k = 1;
-                    self.pass = 0;
-                    self.parked = 0;
                     self.state = 2;
-                    if self.visits >= self.visit {
-                        return Some(preempt_run(&self.pairs[self.pos], self.seeds, self.visit, self.k, self.parked));
-                    }
                 }
-                _ => {
-                    // what did the previous run of the sweep report?
-                    let info = grex_sim::exec::LAST_RUN_INFO.lock().unwrap().clone();
-                    let victim_preemptions = info.1.saturating_sub(if self.parked > 0 { 1 } else { 0 });
-                    if std::env::var("SIMHIST_DEBUG_SWEEP").is_ok() {
-                        eprintln!("pair {} visit {}/{} k {}/{} parked {} -> visits {:?} preemptions {} at_next_hook {}", self.pos, self.visit, self.visits, self.k, self.k_max, self.parked, info.0, info.1, info.2);
-                    }
-                    let reached_next_hook = info.2 > 0 || victim_preemptions == 0;
-                    if reached_next_hook || self.k >= self.k_max {
-                        self.visits_swept += 1;
-                        self.visit += 1;
-                        self.k = 1;
-                    } else {
-                        self.k += 1;
-                    }
+                2 => {
                     if self.visit > self.visits {
                         // second pass for systematic pairs: the intruder is itself parked in the middle of its build
                         if self.pass == 0 && self.second_pass && self.pairs[self.pos].systematic && self.intruder_visits > 1 {
                             self.pass = 1;
                             self.parked = 1 + self.rng.below(self.intruder_visits);
                             self.visit = self.skip_visits + 1;
-                            self.k = 1;
-                        } else {
-                            self.pairs_done += 1;
-                            self.pos += 1;
-                            self.state = 0;
                             continue;
                         }
+                        self.pairs_done += 1;
+                        self.pos += 1;
+                        self.state = 0;
+                        continue;
                     }
-                    return Some(preempt_run(&self.pairs[self.pos], self.seeds, self.visit, self.k, self.parked));
+                    if self.visit % PREEMPT_SPLIT != self.residue {
+                        self.visit += 1;
+                        continue;
+                    }
+                    let key = (self.victim_key(), self.visit);
+                    self.state = 3;
+                    if !grex_sim::exec::TRACES.lock().unwrap().contains_key(&key) {
+                        return Some(preempt_run_via(&self.pairs[self.pos], self.seeds, self.visit, TRACE_CAPACITY, 0, 2));
+                    }
+                }
+                3 => {
+                    let key = (self.victim_key(), self.visit);
+                    let trace = grex_sim::exec::TRACES.lock().unwrap().get(&key).cloned();
+                    self.positions.clear();
+                    self.pos_idx = 0;
+                    if let Some(t) = trace {
+                        if self.pass == 0 {
+                            self.stretch_instructions += t.len() as u64;
+                            if t.len() as u32 >= TRACE_CAPACITY {
+                                self.stretches_truncated += 1;
+                            }
+                        }
+                        let mut seen: BTreeMap<u32, u32> = BTreeMap::new();
+                        for (i, off) in t.iter().enumerate() {
+                            let n = seen.entry(*off).or_insert(0);
+                            *n += 1;
+                            if *n <= self.occ_max {
+                                self.positions.push(i as u32 + 1);
+                            }
+                        }
+                        if self.positions.len() > self.per_visit_max {
+                            // keep the first occurrence of every address, then thin out evenly
+                            let mut first: Vec<u32> = vec![];
+                            let mut seen1: BTreeSet<u32> = BTreeSet::new();
+                            for (i, off) in t.iter().enumerate() {
+                                if seen1.insert(*off) {
+                                    first.push(i as u32 + 1);
+                                }
+                            }
+                            self.positions = first;
+                            if self.positions.len() > self.per_visit_max {
+                                let n = self.positions.len();
+                                let m = self.per_visit_max;
+                                self.positions = (0..m).map(|j| self.positions[j * n / m]).collect();
+                            }
+                        }
+                    }
+                    self.positions_total += self.positions.len() as u64;
+                    self.state = 4;
+                }
+                _ => {
+                    if self.pos_idx < self.positions.len() {
+                        let k = self.positions[self.pos_idx];
+                        self.pos_idx += 1;
+                        return Some(preempt_run_via(&self.pairs[self.pos], self.seeds, self.visit, k, self.parked, 1));
+                    }
+                    self.visits_swept += 1;
+                    self.visit += 1;
+                    self.state = 2;
                 }
             }
         }
@@ -577,12 +629,19 @@ fn mode_worker(args: &[String]) -> i32 {
     let out = if index >= PREEMPT_BASE {
         let thorough = tier == "thorough";
         let n_eps: u64 = arg_value(args, "--preempt-episodes").and_then(|s| s.parse().ok()).unwrap_or(if thorough { PREEMPT_EPISODES_THOROUGH } else { PREEMPT_EPISODES });
-        let k_max: u32 = arg_value(args, "--preempt-kmax").and_then(|s| s.parse().ok()).unwrap_or(if thorough { PREEMPT_K_MAX_THOROUGH } else { PREEMPT_K_MAX });
-        let mut sweep = PreemptSweep::new(verif_seed, &tier, index - PREEMPT_BASE, n_eps, k_max);
+        let occ_max: u32 = arg_value(args, "--preempt-occ-max").and_then(|s| s.parse().ok()).unwrap_or(if thorough { PREEMPT_OCC_MAX_THOROUGH } else { PREEMPT_OCC_MAX });
+        let mut sweep = PreemptSweep::new(verif_seed, &tier, index - PREEMPT_BASE, n_eps, occ_max);
         let out = run_episode(|r| sweep.next(r), want_sample, false);
         let mut out = out;
         out.json["preempt_pairs"] = json!(sweep.pairs_done);
         out.json["preempt_hook_visits_swept"] = json!(sweep.visits_swept);
+        out.json["preempt_positions"] = json!(sweep.positions_total);
+        out.json["preempt_stretch_instructions"] = json!(sweep.stretch_instructions);
+        out.json["preempt_stretches_truncated"] = json!(sweep.stretches_truncated);
+        out.json["breakpoints_set"] = json!(grex_sim::step::BREAKPOINTS_SET.load(Ordering::SeqCst));
+        out.json["breakpoints_hit"] = json!(grex_sim::step::BREAKPOINTS_HIT.load(Ordering::SeqCst));
+        out.json["breakpoints_refused"] = json!(grex_sim::step::BREAKPOINTS_REFUSED.load(Ordering::SeqCst));
+        out.json["traces_recorded"] = json!(grex_sim::step::TRACES_RECORDED.load(Ordering::SeqCst));
         out
     } else if index >= SCENARIO_BASE {
         let runs = scenario_runs(index - SCENARIO_BASE, verif_seed);
@@ -1441,7 +1500,7 @@ fn mode_run(args: &[String]) -> i32 {
     for (i, v) in &results {
         for k in [
             "runs", "clients", "events", "builds", "getrandom_calls", "getrandom_unowned", "clock_reads_simulated", "clock_jumps_injected", "hash_streams", "switches", "switches_in_build", "lock_handovers", "decisions", "schedule_fps",
-            "preempt_runs", "preemptions", "preemptions_between_instructions", "preemptions_at_next_hook", "single_step_traps", "single_steps_counted", "single_step_expired", "preempt_pairs", "preempt_hook_visits_swept",
+            "preempt_runs", "preemptions", "preemptions_between_instructions", "preemptions_at_next_hook", "single_step_traps", "single_steps_counted", "single_step_expired", "preempt_pairs", "preempt_hook_visits_swept", "preempt_positions", "preempt_stretch_instructions", "preempt_stretches_truncated", "traces_recorded", "breakpoints_set", "breakpoints_hit", "breakpoints_refused",
         ] {
             *agg.entry(k.to_string()).or_insert(0) += v[k].as_u64().unwrap_or(0);
         }
@@ -1713,7 +1772,14 @@ fn mode_run(args: &[String]) -> i32 {
                 "episodes": n_pre,
                 "two_client_worlds_swept": agg.get("preempt_pairs"),
                 "hook_visits_swept": agg.get("preempt_hook_visits_swept"),
-                "instruction_counts_per_visit": format!("1..={} (until the next hook or the end of the call is reached); repeated builds: 1..=({} / visits of the repeated build), at most {}", if tier == "thorough" { PREEMPT_K_MAX_THOROUGH } else { PREEMPT_K_MAX }, if tier == "thorough" { PREEMPT_STEP_BUDGET_THOROUGH } else { PREEMPT_STEP_BUDGET }, PREEMPT_K_CAP),
+                "positions_per_stretch": format!("every instruction address of the stretch between a visit and the next hook (up to {} instructions), at its first {} occurrences; at most {} positions per visit", TRACE_CAPACITY, if tier == "thorough" { PREEMPT_OCC_MAX_THOROUGH } else { PREEMPT_OCC_MAX }, if tier == "thorough" { PREEMPT_POSITIONS_PER_VISIT_THOROUGH } else { PREEMPT_POSITIONS_PER_VISIT }),
+                "positions_swept": agg.get("preempt_positions"),
+                "instructions_in_the_stretches_traced": agg.get("preempt_stretch_instructions"),
+                "stretches_longer_than_the_trace_capacity": agg.get("preempt_stretches_truncated"),
+                "trace_runs": agg.get("traces_recorded"),
+                "hardware_breakpoints_set": agg.get("breakpoints_set"),
+                "hardware_breakpoints_hit": agg.get("breakpoints_hit"),
+                "hardware_breakpoints_refused_by_the_kernel": agg.get("breakpoints_refused"),
                 "runs": agg.get("preempt_runs"),
                 "preemptions_between_two_instructions": agg.get("preemptions_between_instructions"),
                 "preemptions_carried_out_at_the_next_hook_instead": agg.get("preemptions_at_next_hook"),
